@@ -62,7 +62,10 @@ const INT_TYPES: [(&str, i128, i128); 9] = [
 ];
 
 const RENAMES: [&str; 22] = ["with space", "quo\"te", "back\\slash", "ünï", "emoji😀", "", "new\nline", "{curly}", "a:b", "comma,", "null", "0", "tab\there", "/slash/", "cr\rhere", "nul\0byte", "del\u{7f}", "apo'strophe", "zero\u{200b}width", "\\\"both\"\\", "\\u0041", "\\n"];
-const IDENTS: [&str; 12] = ["a", "b_c", "camelCase", "x1", "_private", "value", "name", "data2", "ünï", "long_identifier_name", "q", "zz"];
+const IDENTS: [&str; 17] = ["a", "b_c", "camelCase", "x1", "_private", "value", "name", "data2", "ünï", "long_identifier_name", "q", "zz", "Name", "NAME", "nam", "value2", "camelcase"];
+/// variant identifiers that differ only in letter case or are prefixes of one another (seed C14-14: variant names compared
+/// without regard to case, so `MB` read back as `Mb`)
+const CASE_FAMILY: [&str; 14] = ["Mb", "MB", "mB", "Kb", "KB", "A", "Ab", "AB", "Abc", "ABC", "On", "ON", "Off", "OFF"];
 const STRINGS: [&str; 10] = ["", "hello", "with \"quotes\" and \\ backslash", "ünï çödé 😀", "line\nbreak\ttab", "\u{0}\u{1f}\u{7f}", "null", "{\"a\":1}", "a/b", "\u{2028}\u{ffff}"];
 
 fn json_escape(s: &str) -> String {
@@ -145,6 +148,17 @@ fn gen_types(rng: &mut Lcg, n: usize) -> Vec<TypeDef> {
                 keys.push(key.clone());
                 fields.push((id, key, gen_ft(rng, &types, 0, false)));
             }
+            // one struct in six renames two of its fields to each other's Rust identifiers (seed C14-15: a derive that looks
+            // a field up under its Rust name first swaps them)
+            if fields.len() >= 2 && rng.next() % 6 == 0 {
+                let i = (rng.next() % fields.len() as u64) as usize;
+                let j = (i + 1 + (rng.next() % (fields.len() as u64 - 1)) as usize) % fields.len();
+                let (a, b) = (fields[i].0.clone(), fields[j].0.clone());
+                if !fields.iter().enumerate().any(|(k, f)| k != i && k != j && (f.1 == a || f.1 == b)) {
+                    fields[i].1 = b;
+                    fields[j].1 = a;
+                }
+            }
             // one struct in eight has only optional fields
             if rng.next() % 8 == 0 {
                 fields.truncate(3);
@@ -166,8 +180,11 @@ fn gen_types(rng: &mut Lcg, n: usize) -> Vec<TypeDef> {
             let nv = 1 + (rng.next() % 8) as usize;
             let mut vs = Vec::new();
             let mut names: Vec<String> = Vec::new();
+            // every third enum draws its variant identifiers from the case family
+            let family = rng.next() % 3 == 0;
+            let mut pool: Vec<&str> = CASE_FAMILY.to_vec();
             for v in 0..nv {
-                let id = format!("V{}", v);
+                let id = if family { pool.remove((rng.next() % pool.len() as u64) as usize).to_string() } else { format!("V{}", v) };
                 let mut nm = if rng.next() % 3 == 0 { RENAMES[(rng.next() % RENAMES.len() as u64) as usize].to_string() } else { id.clone() };
                 if names.contains(&nm) {
                     nm = id.clone();
